@@ -15,7 +15,7 @@ import (
 
 func init() {
 	register(&Rule{ID: "R114", Name: "BUILTIN-TABLE", Floor: 40,
-		Text: "every function value stored under a constant name in the maps built by eval.NewDefaultCtx is checked against the meaning of that name for its signature: boolean functions (`!`, `&`, `|`, `!=`, `nand`, and `int` on bool) are evaluated (E5, helpers inlined) for every assignment of their arguments and must produce the truth table of not, and, or, xor, not-and, and 1/0; `+ - * /` on int and float must return that operator applied to (first, second) argument - either order for + and *; `abs` on int is evaluated in the sign worlds (negative, zero, positive) and must return -x, x or -x, x; `abs` on float must be math.Abs; `bool` on int must be x != 0; `float` on int and `int` on float must be the plain conversion of the argument. The entry must also be filed where lookup expects it: under singleArgs iff it takes one argument, and in the map of the types.FunctionType matching its argument type. String functions and `str` are not covered (library calls)",
+		Text: "every function value stored under a constant name in the maps built by eval.NewDefaultCtx is checked against the meaning of that name for its signature: boolean functions (`!`, `&`, `|`, `!=`, `nand`, and `int` on bool) are evaluated (E5, helpers inlined) for every assignment of their arguments and must produce the truth table of not, and, or, xor, not-and, and 1/0; `+ - * /` on int and float must return that operator applied to (first, second) argument - either order for + and *; `abs` on int is evaluated in the sign worlds (negative, zero, positive) and must return -x, x or -x, x; `abs` on float must be math.Abs; `bool` on int must be x != 0; `float` on int and `int` on float must be the plain conversion of the argument. The entry must also be filed where lookup expects it: under singleArgs iff it takes one argument, and in the map of the types.FunctionType matching its argument type. The result type is the one the name promises for every argument type (str -> *string, int/len -> int, float -> float64, bool and the logical operators -> bool, abs and arithmetic -> the argument type), and upper / lower are built from strings.ToUpper / strings.ToLower respectively. What str and the string functions compute beyond that is not covered (library calls)",
 		Run:  runR114})
 }
 
@@ -23,9 +23,9 @@ type builtinEntry struct {
 	name   string
 	fn     *ssa.Function
 	at     ssa.Instruction
-	arity  string // "singleArgs" | "doubleArgs" | ""
-	ftype  string // name of the types.FunctionType constant, "" if not traced
-	global string // set when the value is a package-level variable instead of a function
+	arity  string      // "singleArgs" | "doubleArgs" | ""
+	ftype  string      // name of the types.FunctionType constant, "" if not traced
+	global *ssa.Global // set when the value is a package-level variable instead of a function
 }
 
 // defaultCtxEntries collects the (name -> function) MapUpdates of NewDefaultCtx and the helpers it calls in its package.
@@ -114,7 +114,7 @@ func defaultCtxEntries(p *Prog) []builtinEntry {
 				e.fn = t
 			case *ssa.UnOp:
 				if g, ok := t.X.(*ssa.Global); ok {
-					e.global = g.Name()
+					e.global = g
 				}
 			}
 			if _, isSig := v.Type().Underlying().(*types.Signature); isSig {
@@ -123,6 +123,76 @@ func defaultCtxEntries(p *Prog) []builtinEntry {
 		})
 	}
 	visit(root)
+	return out
+}
+
+// valueSig: the signature of the entry's value (a function, or a package-level variable of function type).
+func (e builtinEntry) valueSig() (*types.Signature, bool) {
+	if e.fn != nil {
+		return e.fn.Signature, true
+	}
+	if e.global != nil {
+		sig, ok := deref(e.global.Type()).Underlying().(*types.Signature)
+		return sig, ok
+	}
+	return nil, false
+}
+
+// stdStringsFuncs: the functions of the standard strings package the entry's value is built from: called in the
+// function (or the closures of its body), or handed to the helper that builds the package-level variable.
+func (e builtinEntry) stdStringsFuncs() map[string]bool {
+	out := map[string]bool{}
+	note := func(v ssa.Value) {
+		if f, ok := v.(*ssa.Function); ok && f.Pkg != nil && f.Pkg.Pkg.Path() == "strings" {
+			out[f.Name()] = true
+		}
+	}
+	var scan func(f *ssa.Function, d int)
+	scan = func(f *ssa.Function, d int) {
+		if f == nil || d > 2 {
+			return
+		}
+		eachInstr(f, func(in ssa.Instruction) {
+			var ops []*ssa.Value
+			for _, op := range in.Operands(ops) {
+				if op != nil && *op != nil {
+					note(*op)
+				}
+			}
+		})
+		for _, af := range f.AnonFuncs {
+			scan(af, d+1)
+		}
+	}
+	if e.fn != nil {
+		scan(e.fn, 0)
+	}
+	if e.global != nil && e.global.Pkg != nil {
+		if init := e.global.Pkg.Func("init"); init != nil {
+			eachInstr(init, func(in ssa.Instruction) {
+				st, ok := in.(*ssa.Store)
+				if !ok || st.Addr != ssa.Value(e.global) {
+					return
+				}
+				switch v := st.Val.(type) {
+				case *ssa.Function:
+					scan(v, 0)
+				case *ssa.MakeClosure:
+					scan(v.Fn.(*ssa.Function), 0)
+					for _, b := range v.Bindings {
+						note(b)
+					}
+				case *ssa.Call:
+					for _, a := range v.Call.Args {
+						note(a)
+						if mc, ok := a.(*ssa.MakeClosure); ok {
+							scan(mc.Fn.(*ssa.Function), 0)
+						}
+					}
+				}
+			})
+		}
+	}
 	return out
 }
 
@@ -209,8 +279,49 @@ func runR114(c *Ctx) {
 	ftypeOfKind := map[types.BasicKind]string{types.Int: "FunctionTypeInt", types.Float64: "FunctionTypeFloat", types.Bool: "FunctionTypeBool"}
 	for _, e := range ents {
 		pos := p.instrPos(e.at)
+		// (e) the result type the name promises, whatever the argument type: str -> *string, int -> int,
+		// float -> float64, bool and the logical operators -> bool, len -> int, upper/lower -> *string; abs and the
+		// arithmetic operators return the type of their argument
+		if vsig, ok := e.valueSig(); ok && vsig.Results().Len() == 1 && vsig.Params().Len() >= 1 {
+			rt := vsig.Results().At(0).Type()
+			kindName := func(t types.Type) string {
+				if pt, ok := t.Underlying().(*types.Pointer); ok && basicKind(pt.Elem()) == types.String {
+					return "*string"
+				}
+				return t.String()
+			}
+			want := map[string]string{"str": "*string", "upper": "*string", "lower": "*string", "int": "int", "len": "int", "float": "float64",
+				"bool": "bool", "!": "bool", "&": "bool", "|": "bool", "!=": "bool", "nand": "bool"}[e.name]
+			switch e.name {
+			case "abs", "+", "-", "*", "/":
+				want = kindName(vsig.Params().At(0).Type())
+			}
+			rkey := fmt.Sprintf("config/eval.NewDefaultCtx|%q on %s|result type", e.name, kindName(vsig.Params().At(0).Type()))
+			if want != "" {
+				if got := kindName(rt); got != want {
+					c.bad(rkey, pos, fmt.Sprintf("the function registered as %q returns %s: the name denotes a function whose value is a %s (a neighbour's function was filed under this name)", e.name, got, want))
+				} else {
+					c.okTrivial(rkey, pos, "returns "+want)
+				}
+			}
+		}
+		// (f) upper / lower: built from strings.ToUpper / strings.ToLower respectively
+		if e.name == "upper" || e.name == "lower" {
+			ukey := fmt.Sprintf("config/eval.NewDefaultCtx|%q|library function", e.name)
+			want := map[string]string{"upper": "ToUpper", "lower": "ToLower"}[e.name]
+			other := map[string]string{"upper": "ToLower", "lower": "ToUpper"}[e.name]
+			uses := e.stdStringsFuncs()
+			switch {
+			case uses[want] && !uses[other]:
+				c.ok(ukey, pos, "built from strings."+want)
+			case uses[other]:
+				c.bad(ukey, pos, fmt.Sprintf("the function registered as %q is built from strings.%s", e.name, other))
+			default:
+				c.bad(ukey, pos, fmt.Sprintf("the function registered as %q does not use strings.%s", e.name, want))
+			}
+		}
 		if e.fn == nil {
-			continue // a package-level function variable (the string functions): not covered
+			continue // a package-level function variable (the string functions): evaluated no further
 		}
 		fn := e.fn
 		sig := fn.Signature
